@@ -115,13 +115,24 @@ XLcdx(e) ==
        \cup (IF \A d \in Rng(w.deps) : d[1] \in Rng(w.ids) /\ (d[2] = "" \/ d[2] \in Rng(w.ids)) THEN {} ELSE {pfx \o "dangling"})
        \cup Identity(e, g0, FALSE, pfx)
 
-Outcomes(e) == {"total." \o e.fmt \o "." \o o.kind : o \in {x \in {e.w1, e.r1, e.w2, e.r2} : x.kind \in {"panic", "hang", "both", "neither"}}}
+Outcomes(e) == {"total." \o e.fmt \o "." \o o.kind : o \in {x \in {e.w1, e.r1, e.w2, e.r2} : x.kind \in {"panic", "hang", "both", "neither", "exit"}}}
 
 Judge(e) ==
   CASE e.op = "RT" ->
          Outcomes(e)
          \cup (IF e.cls = "spdx" THEN RTspdx(e) ELSE IF e.cls \in {"cdx14", "cdx15"} THEN RTcdx(e) ELSE {})
          \cup (IF e.fmt = "spdx23" THEN XLspdx(e) ELSE XLcdx(e))
+    [] e.op = "PF" ->
+         \* parser totality (C04): every entry point returns a document with metadata and node list, or an error
+         (IF "died" \in DOMAIN e
+          THEN (IF e.biglicenses THEN {"pf.cdx-licenses-exponential"} ELSE {"pf.process-died"}) ELSE {})
+         \cup
+         UNION {IF r.o.kind = "err" THEN {}
+                ELSE IF r.o.kind = "ok" THEN (IF r.mode = "sniff" \/ (r.meta /\ r.nl) THEN {} ELSE {"pf." \o r.mode \o ".partial-document"})
+                \* known finding: the CycloneDX licence expression doubles per entry; only inputs with a long licence list
+                ELSE IF r.o.kind \in {"hang", "exit"} /\ e.biglicenses /\ r.mode \in {"auto", "cdx13", "cdx15"}
+                     THEN {"pf.cdx-licenses-exponential"}
+                ELSE {"pf." \o r.mode \o "." \o r.o.kind} : r \in Rng(e.results)}
     [] OTHER -> {"unknown-op." \o e.op}
 
 Init == l = 1
